@@ -75,6 +75,12 @@ pub fn serialize_wire(kind: RKind, wire: &V) -> Result<Vec<u8>, String> {
         let r = kind.build(&view);
         let mut buf: heapless::Vec<u8, BIG> = heapless::Vec::new();
         r.serialize(&mut buf);
+        // a clone must encode to the same bytes
+        let mut buf2: heapless::Vec<u8, BIG> = heapless::Vec::new();
+        r.clone().serialize(&mut buf2);
+        if buf != buf2 {
+            panic!("clone of the response encodes differently: {} vs {}", crate::refcbor::hex(&buf), crate::refcbor::hex(&buf2));
+        }
         buf.to_vec()
     })
 }
